@@ -15,7 +15,9 @@ CHECKS = {
         text=('Every method of depccg/cat.py that the property is anchored in (__eq__, __str__, __xor__, clear_features of the four dataclasses, '
               'Feature.parse unary branch) is symbolically executed from the ast of the working tree, path by path, against a sidecar contract '
               '(ADT equality, canonical text, kernel of strip, erase); all obligations are discharged by z3 for all category values, recursive calls '
-              'use the callee contract; erase/strip algebra is proved by structural-induction lemmas; hash/eq coherence from the dataclass decision table.'),
+              'use the callee contract; erase/strip algebra is proved by structural-induction lemmas; hash/eq coherence from the dataclass decision table. '
+              'BOUNDED stand-in (never counted as proved): ==, hash, ^, text comparison and clear_features of the real classes against field-level twins on constructor-built categories of both '
+              'feature systems - it turns an obligation the verifier cannot analyse (e.g. a rewritten method with a nested recursive helper) into a violation with a concrete value.'),
         design_ref='DESIGN.md section 4, C13',
         note=TB_PY,
         technique='contract-based deductive verification: PyVC symbolic execution of the real source + z3, induction lemmas',
@@ -167,7 +169,9 @@ CHECKS['C18'] = dict(
     category='proof',
     text=('Frame obligations for every encoder entry point and the Tree accessors they use: each store site (attribute/subscript store, del, mutating method call) must not target an object '
           'reachable from the arguments; decided on the ast by a flow-sensitive points-to abstraction with per-function return summaries; module-level tables are never stored to. '
-          'With the frame, rendering twice / in any order of formats equals rendering a fresh copy. BOUNDED: random format sequences on shared token objects against deep copies on the real encoders.'),
+          'State scan of depccg/types.py, tree.py, utils.py and the printer modules: no global statement, no store into module-level names, no mutation of objects obtained from memoised functions or module-level tables. '
+          'With the frame, rendering twice / in any order of formats equals rendering a fresh copy. BOUNDED: random format sequences on shared token objects against deep copies on the real encoders; '
+          'a batch mixing the failure placeholder with annotated sentences rendered before and after other batches.'),
     design_ref='DESIGN.md section 4, C18', note='the points-to abstraction (contracts/frame.py) and the library effect contracts are the trusted base; ' + BOUNDED_NOTE,
     technique='contract-based verification: frame (modifies = {}) obligations per store site discharged by points-to analysis of the real ast; bounded differential',
 )
